@@ -1,0 +1,139 @@
+//go:build verif
+
+// Contracts for govc (/verif): C12 "A CoSi nonce never answers two different challenges". Comment-only file.
+// Also holds the mask vocabulary (BitSet / PopUpTo / MaskInRange) shared with C13, C14 and C09.
+
+package crypto
+
+// ───────────── masks (shared with zz_contracts_c13_verif.go) ─────────────
+
+//@ -- bit b of mask m is set, written exactly as the code tests it (`m & (1<<b) == 1<<b`); `&` and `<<` by a variable are
+//@ -- uninterpreted in govc (band/shlv), so this is "the test the code performs", not bit-vector reasoning.
+//@ spec BitSet(m uint64, b int) bool = (m & (1 << b)) == (1 << b)
+
+//@ -- the only arithmetic fact about shifts that is used: 1<<k is a positive uint64 for 0 <= k < 64 (so the uint64
+//@ -- wraparound of the code's `uint64(1) << i` is the identity). A theorem of arithmetic, stated as an axiom because
+//@ -- shlv is uninterpreted.
+//@ axiom forall k int :: { 1 << k } 0 <= k && k < 64 ==> 1 <= (1 << k) && (1 << k) <= 9223372036854775808
+
+//@ -- PopUpTo(m, n): number of positions b < n with BitSet(m, b); PopUpTo(m, 64) is the mask size. Defined by the two axioms.
+//@ uninterp PopUpTo(m uint64, n int) int
+//@ axiom forall m int :: { PopUpTo(m, 0) } PopUpTo(m, 0) == 0
+//@ axiom forall m int, n int :: { PopUpTo(m, n) } 0 < n ==> PopUpTo(m, n) == PopUpTo(m, n - 1) + (BitSet(m, n - 1) ? 1 : 0)
+
+//@ -- every set mask position is inside the key vector and selects a non-nil key
+//@ spec MaskInRange(m uint64, publics []*Key) bool =
+//@     forall b int :: 0 <= b && b < 64 && BitSet(m, b) ==> b < len(publics) && publics[b] != nil
+
+// ───────────── the challenge / response layer (group arithmetic and hashes are not interpreted) ─────────────
+
+//@ -- ChalOK / ChalOf: success and 32-byte canonical encoding of the challenge scalar that (*CosiSignature).Challenge computes.
+//@ -- They are functions of the arguments AND of the heap cells Challenge may read (bytes: c.Signature and the keys behind
+//@ -- publics; uint64: c.Mask; publics[..]: the pointer block of publics) -- `reads` makes those heap components arguments.
+//@ uninterp ChalOK(c *CosiSignature, publics []*Key, message Hash) bool reads byte, uint64, publics[..]
+//@ uninterp ChalOf(c *CosiSignature, publics []*Key, message Hash) [32]byte reads byte, uint64, publics[..]
+//@ -- ScBytes: canonical little-endian encoding of an edwards25519 scalar value.
+//@ uninterp ScBytes(s edwards25519.Scalar) [32]byte
+//@ -- RespOf: the Schnorr share x*a + r (encoded) as an uninterpreted function of the inputs of Response.
+//@ uninterp RespOf(c *CosiSignature, privateKey *Key, random *Key, publics []*Key, message Hash) [32]byte reads byte, uint64, publics[..]
+
+//@ -- Challenge is VERIFIED for what can be verified (no panic, writes nothing that existed, fails whenever the mask does not
+//@ -- select a non-empty set of non-nil, decodable keys inside the key vector). The `assumes` clauses are T-CRYPTO: success
+//@ -- and value of the challenge are deterministic functions of the inputs (sha512 and the group law are not interpreted).
+//@ func (c *CosiSignature) Challenge
+//@   property C12, C13
+//@   requires c != nil
+//@   modifies nothing
+//@   ensures [fail] err != nil ==> result0 == nil
+//@   ensures [ok] err == nil ==> result0 != nil && fresh(result0) && MaskInRange(c.Mask, publics) && PopUpTo(c.Mask, 64) > 0
+//@   assumes err == nil <==> ChalOK(c, publics, message)
+//@   assumes err == nil ==> ScBytes(*result0) == ChalOf(c, publics, message)
+//@ -- SetUniformBytes cannot fail on the 64-byte digest: its error return is dead code
+//@   unreachable return@3
+
+//@ -- Response: verified likewise. Its two explicit panics (non-canonical private key / nonce scalar) are specified behaviour:
+//@ -- callers must rule them out, except on the path where the challenge cannot be computed (the error return comes first).
+//@ func (c *CosiSignature) Response
+//@   property C12
+//@   requires c != nil && privateKey != nil && random != nil
+//@   panics when ChalOK(c, publics, message) && (!CanonicalScalar(seq(*privateKey)) || !CanonicalScalar(seq(*random)))
+//@   modifies nothing
+//@   ensures [fail] err != nil ==> result0 == nil
+//@   ensures [ok] err == nil ==> result0 != nil && fresh(result0)
+//@   ensures [iff] err == nil <==> old(ChalOK(c, publics, message))
+//@   assumes err == nil ==> *result0 == old(RespOf(c, privateKey, random, publics, message))
+
+// ───────────── nonce.go ─────────────
+
+//@ -- representation invariant of the shared nonce state. Established by newCosiNonce (the only place a `nonce` is built),
+//@ -- preserved by respond (the only writer).
+//@ spec NonceInv(n *nonce) bool = n != nil && (n.used ==> n.random == nil) &&
+//@     (!n.used ==> n.random != nil && n.random != &n.challenge && n.random != &n.response && n.random != &n.commitment &&
+//@                  CanonicalScalar(seq(*n.random)))
+
+//@ -- two-state: the nonce state is exactly what it was at entry (including the secret bytes behind random)
+//@ spec NonceSame(n *nonce) bool = n.used == old(n.used) && n.random == old(n.random) && n.challenge == old(n.challenge) &&
+//@     n.response == old(n.response) && n.commitment == old(n.commitment) && (old(n.random) != nil ==> *old(n.random) == old(*n.random))
+
+//@ -- the clauses of the property, shared by (*nonce).respond and (*CosiNonce).Response
+//@ spec C12ChalFail(n *nonce, s *CosiSignature, publics []*Key, m Hash, res *[32]byte, e error) bool =
+//@     !old(ChalOK(s, publics, m)) ==> e != nil && res == nil && NonceSame(n)
+//@ spec C12Reuse(n *nonce, s *CosiSignature, publics []*Key, m Hash, res *[32]byte, e error) bool =
+//@     old(ChalOK(s, publics, m)) && old(n.used) && old(n.challenge) != old(ChalOf(s, publics, m)) ==>
+//@         e != nil && e == ErrCosiNonceReuse && res == nil && NonceSame(n)
+//@ spec C12Retry(n *nonce, s *CosiSignature, publics []*Key, m Hash, res *[32]byte, e error) bool =
+//@     old(ChalOK(s, publics, m)) && old(n.used) && old(n.challenge) == old(ChalOf(s, publics, m)) ==>
+//@         e == nil && res != nil && fresh(res) && *res == old(n.response) && NonceSame(n)
+//@ spec C12FirstOK(n *nonce, s *CosiSignature, publics []*Key, m Hash, res *[32]byte, e error) bool =
+//@     !old(n.used) && e == nil ==> old(ChalOK(s, publics, m)) && n.used && n.challenge == old(ChalOf(s, publics, m)) &&
+//@         res != nil && fresh(res) && n.response == *res && n.random == nil && n.commitment == old(n.commitment) &&
+//@         (forall k int :: 0 <= k && k < 32 ==> (*old(n.random))[k] == 0)
+//@ spec C12FirstFail(n *nonce, res *[32]byte, e error) bool =
+//@     !old(n.used) && e != nil ==> res == nil && NonceSame(n)
+//@ -- history corollary: once used, the binding (challenge, response) never changes again
+//@ spec C12Monotone(n *nonce) bool = old(n.used) ==> n.used && n.challenge == old(n.challenge) && n.response == old(n.response)
+
+//@ func (n *nonce) respond
+//@   property C12
+//@   requires NonceInv(n) && signature != nil && private != nil && ErrCosiNonceReuse != nil
+//@ -- the signer's long-term private key is a canonical scalar (otherwise Response panics: no response leaves the node);
+//@ -- established by the callers in kernel/cosi.go (node.Signer.PrivateSpendKey, a key the node derived itself)
+//@   requires CanonicalScalar(seq(*private))
+//@   modifies n.random, n.challenge, n.response, n.used, *n.random
+//@   ensures [inv] NonceInv(n)
+//@   ensures [chal-fail] C12ChalFail(n, signature, publics, message, result0, err)
+//@   ensures [reuse] C12Reuse(n, signature, publics, message, result0, err)
+//@   ensures [retry] C12Retry(n, signature, publics, message, result0, err)
+//@   ensures [first-ok] C12FirstOK(n, signature, publics, message, result0, err)
+//@   ensures [first-fail] C12FirstFail(n, result0, err)
+//@   ensures [monotone] C12Monotone(n)
+//@   lockset n.Mutex guards used, challenge, response, random
+//@   loop 0 invariant n.challenge == old(ChalOf(signature, publics, message)) && n.commitment == old(n.commitment)
+//@   loop 0 invariant forall k int :: 0 <= k && k <= rangeindex ==> (*n.random)[k] == 0
+
+//@ func (n *CosiNonce) Response
+//@   property C12
+//@   requires n != nil && NonceInv(n.state) && signature != nil && private != nil && ErrCosiNonceReuse != nil
+//@   requires CanonicalScalar(seq(*private))
+//@   modifies n.state.random, n.state.challenge, n.state.response, n.state.used, *n.state.random
+//@   ensures [inv] NonceInv(n.state) && n.state == old(n.state)
+//@   ensures [chal-fail] C12ChalFail(n.state, signature, publics, message, result0, err)
+//@   ensures [reuse] C12Reuse(n.state, signature, publics, message, result0, err)
+//@   ensures [retry] C12Retry(n.state, signature, publics, message, result0, err)
+//@   ensures [first-ok] C12FirstOK(n.state, signature, publics, message, result0, err)
+//@   ensures [first-fail] C12FirstFail(n.state, result0, err)
+//@   ensures [monotone] C12Monotone(n.state)
+
+//@ -- (Key).Public: assumed contract in zz_contracts_c30_verif.go (panics, i.e. does not return, on a non-canonical scalar)
+
+//@ func newCosiNonce
+//@   property C12
+//@   requires random != nil ==> CanonicalScalar(seq(*random))
+//@   panics when random == nil
+//@   ensures result != nil && fresh(result) && fresh(result.state) && NonceInv(result.state) && !result.state.used && result.state.random == random
+
+//@ func (n *CosiNonce) Public
+//@   property C12
+//@   requires n != nil && n.state != nil
+//@   modifies nothing
+//@   ensures result == n.state.commitment
